@@ -326,6 +326,11 @@ def os_tags(case, out):
     return tags
 
 
+# black-box mode of h_drbg.c (notes/blackbox.md): crypto_entropy.c as a separate unit, crypto_entropy_read() only; the
+# generator's state (`drbg`, `instantiated`) cannot be reset from outside: one process per case
+BB = dict(bb_ok=True, bb_srcs=["crypto/crypto_entropy.c"], bb_fresh=True)
+
+
 def components(ctx):
     return [vlib.Component(
         "osent", "h_osent.c", ["util/entropy.c", "util/warnp.c"], ["osent"], gen_osent,
@@ -343,7 +348,7 @@ def components(ctx):
              "{0,1,31,32,33,64,65535,65536,65537,131073}, 65536+-{31,32,33}, 2x/3x 65536 +-1, random; runs of 514..632 small calls "
              "crossing two reseed intervals; multi-piece calls straddling a reseed; OS failure at the instantiate call and at the "
              "1st/2nd reseed, with retries; non-trivial = at least one read of >0 bytes; distinct by hash of the op list",
-        classify=classify, cpu=[]),
+        classify=classify, cpu=[], **BB),
       vlib.Component(
         "drbgos", "h_drbg.c", SRCS + ["util/entropy.c"], ["drbg"], gen_drbgos,
         nontrivial=lambda c: any(o.startswith("entos") for o in c) and any(o.startswith("read") and o != "read 0" for o in c),
@@ -353,7 +358,7 @@ def components(ctx):
              "first reseed (after 256 generates, also between the pieces of one call), each followed by retries; the model's OS answer "
              "is Model.OsEntropy's result for the session; non-trivial = at least one session and one read of >0 bytes",
         classify=lambda case, out: os_tags(case, out) + classify(case, out),
-        cpu=[], extra=["-DDRBG_OS"], ldflags=["-Wl,--wrap=open,--wrap=read,--wrap=close"])]
+        cpu=[], extra=["-DDRBG_OS"], ldflags=["-Wl,--wrap=open,--wrap=read,--wrap=close"], **BB)]
 
 
 def check(ctx):
